@@ -4,6 +4,7 @@ CHECK_DEADLOCK FALSE
 CONSTANTS
  HonorsHost = FALSE
  SchemeBound = TRUE
+ PgNoMirrors = TRUE
  FoldCase = TRUE
  StripOnRedirect = TRUE
  MaxFaults = 2
